@@ -76,7 +76,9 @@ pub fn install_panic_hook() {
         } else {
             "<non-string panic payload>".to_string()
         };
-        let text = format!("{} @ {}", message, location.trim_start_matches("/repo/"));
+        // library sources are compiled through sim/repo-link: show them repository-relative
+        let location = location.trim_start_matches("repo-link/").trim_start_matches("/repo/").to_string();
+        let text = format!("{} @ {}", message, location);
         if let Ok(mut last) = LAST_PANIC.lock() {
             // keep the *first* panic of a cascade (e.g. PoisonError after the real one)
             if last.is_none() {
